@@ -497,8 +497,9 @@ fn after_read(ctx: &Ctx, shard: usize, o: &ObjectFile, partners: &[ObjectFile], 
         None => ctx.fail("C19", "reserialize_panics", format!("TextFormat::serialize panics on an object read from {origin}"), format!("objtext.ser\t{t}")),
     }
     // link with assembled files, both ways
-    for _ in 0..2 {
-        let p = r.pick(partners);
+    let all = origin == "boundary";
+    for pi in 0..(if all { partners.len() } else { 2.min(partners.len()) }) {
+        let p = if all { &partners[pi] } else { r.pick(partners) };
         let tp = t_obj(p);
         for flip in [false, true] {
             let (x, y, tx, ty) = if flip { (p, o, &tp, &t) } else { (o, p, &t, &tp) };
